@@ -3,6 +3,7 @@ package props
 import (
 	"bytes"
 	"context"
+	"errors"
 	"fmt"
 	"io"
 	"io/fs"
@@ -11,6 +12,7 @@ import (
 	"sort"
 	"strings"
 	"sync"
+	"syscall"
 	"time"
 
 	"hpverif/internal/core"
@@ -225,6 +227,28 @@ type loggingDest struct {
 	}
 	mu    sync.Mutex
 	paths []string
+	// errno: failures are reported the way an os-backed file system does, as errno values inside the *PathError: they
+	// match the hackpadfs sentinels through errors.Is without being identical to them
+	errno bool
+}
+
+func (l *loggingDest) e(err error) error {
+	if !l.errno || err == nil {
+		return err
+	}
+	var pe *hackpadfs.PathError
+	if !errors.As(err, &pe) {
+		return err
+	}
+	for _, m := range []struct {
+		sentinel error
+		no       syscall.Errno
+	}{{hackpadfs.ErrExist, syscall.EEXIST}, {hackpadfs.ErrNotExist, syscall.ENOENT}, {hackpadfs.ErrNotDir, syscall.ENOTDIR}, {hackpadfs.ErrIsDir, syscall.EISDIR}, {hackpadfs.ErrNotEmpty, syscall.ENOTEMPTY}} {
+		if errors.Is(pe.Err, m.sentinel) {
+			return &hackpadfs.PathError{Op: pe.Op, Path: pe.Path, Err: m.no}
+		}
+	}
+	return err
 }
 
 func (l *loggingDest) log(p string) {
@@ -234,19 +258,21 @@ func (l *loggingDest) log(p string) {
 }
 func (l *loggingDest) Open(name string) (hackpadfs.File, error) {
 	l.log(name)
-	return l.inner.Open(name)
+	f, err := l.inner.Open(name)
+	return f, l.e(err)
 }
 func (l *loggingDest) OpenFile(name string, flag int, perm hackpadfs.FileMode) (hackpadfs.File, error) {
 	l.log(name)
-	return l.inner.OpenFile(name, flag, perm)
+	f, err := l.inner.OpenFile(name, flag, perm)
+	return f, l.e(err)
 }
 func (l *loggingDest) Mkdir(name string, perm hackpadfs.FileMode) error {
 	l.log(name)
-	return l.inner.Mkdir(name, perm)
+	return l.e(l.inner.Mkdir(name, perm))
 }
 func (l *loggingDest) Chmod(name string, mode hackpadfs.FileMode) error {
 	l.log(name)
-	return l.inner.Chmod(name, mode)
+	return l.e(l.inner.Chmod(name, mode))
 }
 
 // yieldingHook yields the processor at transaction boundaries and store calls.
@@ -272,7 +298,7 @@ func c12dest(kind string, r *rand.Rand) (opt hptar.ReaderFSOptions, direct hackp
 		return hptar.ReaderFSOptions{UnarchiveFS: logger}, m, logger
 	case "minimal":
 		m, _ := mem.NewFS()
-		logger = &loggingDest{inner: &minimalTarStore{minimalStore{m}}}
+		logger = &loggingDest{inner: &minimalTarStore{minimalStore{m}}, errno: true}
 		return hptar.ReaderFSOptions{UnarchiveFS: logger}, m, logger
 	case "yielding":
 		k, _ := keyvalue.NewFS(kvs.WrapTxn(mem.NewStoreVerif(), yieldingHook(r)))
